@@ -62,6 +62,45 @@ class Row:
             return False
         return True
 
+    def all_paths(self, eff, what, zero=None, no_destructor=False, same_slot=False, sub="all-paths"):
+        """`eff` is mandatory: every path to every return passes it - unless the edge taken makes it void: `zero` (a count) is 0 on that edge, or
+        (no_destructor) the vector has no destructor there. An element size of 0 or a missing drop glue is never an excuse for skipping a step that
+        also does bookkeeping."""
+        I = self.I
+
+        def excused(p_, g_):
+            fs = edge_facts(I, p_, g_)
+            if zero is not None and implies(fs, ("eq0", as_poly(zero))):
+                return True
+            if same_slot:
+                for f_ in fs:
+                    # source and destination are the same slot (pointer equality established on this edge): nothing to copy
+                    if f_[0] in ("true", "isfalse") and isinstance(f_[1], tuple) and f_[1][:1] == ("pcmp",) and ((f_[1][1] == "Eq") == (f_[0] == "true")) \
+                            and f_[1][1] in ("Eq", "Ne"):
+                        return True
+            if no_destructor:
+                for f_ in fs:
+                    if f_[0] in ("eq0", "ne0"):
+                        dats = [a_ for a_ in f_[1].atoms() if isinstance(a_, tuple) and a_[0] == "discr" and "drop_fn" in repr(a_)]
+                        if len(dats) == 1:
+                            at_ = Poly.atom(dats[0])
+                            if (f_[0] == "eq0" and f_[1] in (at_, -at_)) or (f_[0] == "ne0" and f_[1] in (at_ - ONE, ONE - at_)):
+                                return True
+                    if f_[0] == "isfalse" and "needs_drop" in repr(f_[1]):
+                        return True
+            return False
+        # an effect inside an expanded helper (copy_bytes picks ptr::copy or a byte loop) counts at the helper's call site in the judged function
+        inst = eff.node.inst
+        site = eff.gid
+        while inst is not I.g.entry and inst.parent is not None:
+            site = inst.call_gid
+            inst = inst.parent
+        for r in I.all_effects(("RETURN",)):
+            if not every_path_to(I, r.gid, lambda g_: g_ == site, ok_edge=excused):
+                self.fail("a path returns without %s" % what, r, sub)
+                return False
+        return True
+
     def done(self):
         if not self.bad:
             self.res.ok()
@@ -157,6 +196,7 @@ def r_formula(ctx):
             else:
                 row.expect_eq("destination slot", s[1], L0, mi[0], "slot")
                 _size_ok(row, mi[0], s)
+                row.all_paths(mi[0], "writing the value into its slot (the length then covers a slot that holds no value)")
         st, fl = _final_len(I)
         row.expect_eq("final length", fl, as_poly(L0) + ONE, st, "len")
         _no_other(row, I, allowed=("RESERVE", "MOVE_INTO", "STORE"))
@@ -181,6 +221,7 @@ def r_formula(ctx):
                 row.expect_eq("shift source slot", s[1], idx, c, "shift-src")
                 row.expect_eq("shift destination slot", d[1], idx + ONE, c, "shift-dst")
                 row.expect_eq("shift count", n, L0 - idx, c, "shift-count")
+                row.all_paths(c, "shifting the tail (the inserted value overwrites an element)", zero=L0 - idx, sub="shift-all-paths")
         mi = I.all_effects(("MOVE_INTO",))
         if len(mi) != 1:
             row.fail("expected one write of the value, found %d" % len(mi))
@@ -191,6 +232,7 @@ def r_formula(ctx):
             else:
                 row.expect_eq("destination slot", s[1], idx, mi[0], "slot")
                 _size_ok(row, mi[0], s)
+                row.all_paths(mi[0], "writing the value into its slot")
             # shift precedes the write
             if sh and not _before(I, sh[0][0], mi[0]):
                 row.fail("the value is written before the tail is shifted", mi[0], "order")
@@ -217,6 +259,7 @@ def r_formula(ctx):
             else:
                 row.expect_eq("first destroyed slot", s[1], Poly(), ds[0], "slot")
             row.expect_eq("destroyed count", ds[0]["n"], L0, ds[0], "count")
+            row.all_paths(ds[0], "destroying the old contents although the vector has a destructor", zero=L0, no_destructor=True)
         _no_other(row, I, allowed=("STORE", "DESTROY"))
         row.done()
 
@@ -346,6 +389,8 @@ def r_formula(ctx):
                         row.fail("copy destination is not the removed element's slot", c, "copy-dst")
                     cnt = c["n"] if c["ety"] != "u8" else (div_atom(c["n"], s[2]) if s and s[2] else None)
                     row.expect_eq("copied elements", cnt, ONE, c, "copy-count")
+                    row.all_paths(c, "moving the last element into the removed slot (the removed value stays in the vector, the last one is lost)",
+                                  zero=fld("last_index") - fld("index") if fld("index") is not None else None, same_slot=True, sub="copy-all-paths")
             elif fld("index") is None or fld("last_index") is None:
                 row.fail("the handle does not record its index / last index at creation; consume cannot be matched against the Vec model")
             else:
@@ -361,6 +406,7 @@ def r_formula(ctx):
                         row.expect_eq("shift source slot", s[1], fld("index") + ONE, c, "shift-src")
                         row.expect_eq("shift destination slot", d[1], fld("index"), c, "shift-dst")
                         row.expect_eq("shift count", n, fld("last_index") - fld("index"), c, "shift-count")
+                        row.all_paths(c, "shifting the tail down over the removed slot", zero=fld("last_index") - fld("index"), sub="shift-all-paths")
             _no_other(row, I, allowed=("STORE", "COPY"))
             row.done()
 
@@ -417,6 +463,30 @@ def r_formula(ctx):
                 continue
             E = s[1]          # the term used as the end of the removed range
             row.expect_eq("tail count", n, OL - E, c, "tail-count")
+            # the unyielded elements are destroyed on every path to the tail move - unless there are none (iter.index == iter.end on that edge) or the
+            # element type has no destructor (drop_fn is None); an element size of 0 is no excuse (zero-sized types can have drop glue)
+            if ds and it_index and it_end:
+                cnt = F(it_end[0]) - F(it_index[0])
+                dg = {d_.gid for d_ in ds}
+
+                def excused(p_, g_, cnt=cnt):
+                    fs = edge_facts(I, p_, g_)
+                    if implies(fs, ("eq0", cnt)):
+                        return True
+                    for f_ in fs:
+                        if f_[0] in ("eq0", "ne0"):
+                            dats = [a_ for a_ in f_[1].atoms() if isinstance(a_, tuple) and a_[0] == "discr" and "drop_fn" in repr(a_)]
+                            if len(dats) == 1:
+                                at_ = Poly.atom(dats[0])
+                                # Option has two variants: `discr == 0`, or `discr != 1`
+                                if (f_[0] == "eq0" and f_[1] in (at_, -at_)) or (f_[0] == "ne0" and f_[1] in (at_ - ONE, ONE - at_)):
+                                    return True
+                        if f_[0] == "isfalse" and "needs_drop" in repr(f_[1]):
+                            return True
+                    return False
+                if not every_path_to(I, c.gid, lambda g_: g_ in dg, ok_edge=excused):
+                    row.fail("a path reaches the tail move without destroying the unyielded elements although there may be some and the element type may have a "
+                             "destructor (they are overwritten or dropped out of the vector: never destroyed)", c, "destroy-all-paths")
             for dd in ds:
                 if not before_in(I, dd, c) and I.reachable_from(c.gid) & {dd.gid}:
                     row.fail("the tail is moved before the unyielded elements are destroyed: the move may overwrite them, live tail elements are then destroyed instead",
@@ -525,6 +595,17 @@ def _splice_row(row, I, sh, start, OL, E, st, fl, F, roles):
             if not _before(I, r, e) and _reach(I, e, r):
                 row.fail("reservation happens after %s" % e.kind, r, "reserve-order")
                 break
+    # closing the gap when the iterator yielded less than it reported: the tail now lives at start + K (where the first move put it) and goes to
+    # start + written, all of it
+    for (c2, s2, d2, n2) in sh[1:]:
+        if not s2 or not d2 or s2[1] is None or d2[1] is None or n2 is None:
+            row.fail("gap-closing move does not address vector slots", c2, "gap")
+            continue
+        row.expect_eq("gap-closing source slot (where the tail was moved to)", s2[1], start + K, c2, "gap-src")
+        row.expect_eq("gap-closing count", n2, OL - E, c2, "gap-count")
+        rest2 = d2[1] - start
+        if rest2 != K and not any(isinstance(a, tuple) and a and a[0] == "phi" for a in rest2.atoms()):
+            row.fail("gap-closing destination %s is not start + written" % d2[1], c2, "gap-dst")
     # written items: final length must count what was written
     mi = I.all_effects(("MOVE_INTO",))
     if len(mi) != 1:
@@ -920,6 +1001,12 @@ def _backend_growth_rows(res, ctx, arms):
             ent = [e for e in I.all_effects(("ENTER",)) if e["callee"].endswith("::resize")]
             if len(ent) != 1 or as_poly(ent[0]["args"][1]) != Poly.atom(("param", 3)):
                 row.fail("with_capacity must resize the fresh storage to exactly the requested capacity")
+            else:
+                for r in I.all_effects(("RETURN",)):
+                    if not every_path_to(I, r.gid, lambda g: g == ent[0].gid):
+                        row.fail("a path returns the fresh storage without resizing it to the requested capacity (capacity() < requested for some element layouts)",
+                                 r, "all-paths")
+                        break
             row.done()
 
 
@@ -1126,6 +1213,7 @@ def _misc_rows(res, ctx, arms):
                 s = slot_of(ds[0]["ptr"])
                 if not s or s[1] is None or s[1] != Poly() or as_poly(ds[0]["n"]) != L0:
                     row.fail("dropping the vector destroys %s elements from slot %s, expected all LEN elements from slot 0" % (ds[0]["n"], s[1] if s else None), ds[0])
+                row.all_paths(ds[0], "destroying the elements although the vector has a destructor", zero=L0, no_destructor=True)
             if fl != Poly():
                 row.fail("the length is not zeroed before the elements are destroyed", st)
             row.done()
